@@ -5,6 +5,7 @@ from qvlib.facts import op_local, op_place
 from qvlib.paths import Flow, agg_sites, explore
 
 CRATES = None
+OPTIONAL_FNS = ("Executor::canonical_tuple",)      # R-C13-1 / R-C13-3 fall back to direct reads of Executor.canonical_tuples
 EXEC = "quiver_core::executor::Executor"
 VALUE = "quiver_core::value::Value"
 BINARY = "quiver_core::value::Binary"
@@ -96,12 +97,14 @@ def r1_equality_table(ctx):
     for v, needs in (("Tuple", ("canonical_tuple", "values_equal", "len")), ("Function", ("values_equal", "len"))):
         arm = hir.arms_for_pair(m, VALUE, VALUE, v, v)[0][1]
         keys = hir.call_keys(arm["body"]) + hir.method_names(arm["body"])
-        ok = all(any(k.endswith(n) for k in keys) for n in needs)
+        # the canonical shape of a tuple id: the canonical_tuple() accessor, or (accessor inlined by hand) a read of the canonical_tuples table itself
+        table_reads = sum(1 for x in hir.walk(arm["body"]) if x["e"] == "field" and x.get("name") == "canonical_tuples")
+        ok = all(any(k.endswith(n) for k in keys) or (n == "canonical_tuple" and table_reads >= 2) for n in needs)
         qs = hir.quantifiers(arm["body"], lambda c: "values_equal" in (hir._callee_key(c) or c.get("key") or ""))
         if "unknown" in qs or not qs:
             raise CheckError("%s: the element-wise comparison of the %s arm of values_equal has a shape that cannot be classified (%s)" % (R, v, qs))
         if v == "Tuple":
-            ok = ok and sum(1 for k in hir.call_keys(arm["body"]) if k.endswith("canonical_tuple")) >= 2
+            ok = ok and (sum(1 for k in hir.call_keys(arm["body"]) if k.endswith("canonical_tuple")) >= 2 or table_reads >= 2)
             ok = ok and "all" in qs and "any" not in qs
         if v == "Function":
             binds = [nm for nm, path in hir.pat_bindings(arm["pat"]) if path and path[-1][1] == 0]
@@ -275,7 +278,7 @@ def r3_canonical_shapes(ctx):
     ok = "name" in fields and "fields" in fields and any(m == "or_insert" for m in hir.method_names(body))
     ctx.check(ok, R, fn["key"] + "|shape-key", "shape key = (info.name, labels of info.fields), first id wins (or_insert)",
               "canonical shape key no longer built from the tuple name and field labels", "%s:%d" % (fn["file"], fn["line"]))
-    ce = F.body(EXEC + "::canonical_tuple")
+    ce = F.body(EXEC + "::canonical_tuple") if (EXEC + "::canonical_tuple") in F.fns else F.body(EXEC + "::values_equal")     # accessor inlined by hand
     flc = Flow(ce)
     ok = any(t["args"] and flc.canon_op(t["args"][0]) and flc.mentions_field(flc.canon_op(t["args"][0]), "executor::Executor", "canonical_tuples") for bi, t in ce.calls())
     ctx.check(ok, R, ce.key + "|lookup", "canonical_tuple reads Executor.canonical_tuples", "canonical_tuple no longer consults the table", ce.loc(0))
